@@ -3,6 +3,9 @@
    Statements carry the line number the collector of rope/refactor/extract.py sees (ast lineno relative
    to the holding scope). The semantics ignores line numbers.
 
+   A loop's else-clause runs when the loop ends without `break`; a `break`/`continue` inside the else-clause
+   belongs to the ENCLOSING loop.
+
    Fuel is consumed by loop iterations only; everything else is structural. An outlined call
    ([SCall]) carries the callee's body, so the original and the outlined program perform exactly the
    same loop iterations and can be compared at equal fuel. *)
@@ -23,8 +26,8 @@ Inductive stmt :=
 | SAug (l : N) (x : var) (o : binop) (e : expr)
 | SPrint (l : N) (e : expr)
 | SIf (l : N) (c : expr) (a b : list stmt)
-| SWhile (l : N) (c : expr) (b : list stmt)
-| SFor (l : N) (x : var) (e : expr) (b : list stmt)          (* for x in range(e) *)
+| SWhile (l : N) (c : expr) (b els : list stmt)               (* while c: b  else: els *)
+| SFor (l : N) (x : var) (e : expr) (b els : list stmt)      (* for x in range(e): b  else: els *)
 | SReturn (l : N) (e : expr)
 | SPass (l : N)
 | SBreak (l : N)
@@ -83,8 +86,8 @@ Inductive sig := Norm | Brk | Cont | Ret (v : Z) | ErrUnbound | ErrOther | OOF.
 Definition res := (sig * store * list Z)%type.      (* signal, store, printed values (latest first) *)
 
 Inductive loopk :=
-| KWhile (c : expr) (b : list stmt)
-| KFor (x : var) (i hi : Z) (b : list stmt).          (* remaining iterations i .. hi-1 *)
+| KWhile (c : expr) (b els : list stmt)
+| KFor (x : var) (i hi : Z) (b els : list stmt).      (* remaining iterations i .. hi-1 *)
 
 (* callee store: only the arguments (and, when shared, the names the body never assigns) *)
 Definition callee_store (st : store) (args : list var) (locals : list var) (shared : bool) : store :=
@@ -97,8 +100,8 @@ Fixpoint defs_s (s : stmt) : list var :=
   match s with
   | SAssign _ x _ | SAug _ x _ _ => [x]
   | SIf _ _ a b => flat_map defs_s a ++ flat_map defs_s b
-  | SWhile _ _ b => flat_map defs_s b
-  | SFor _ x _ b => x :: flat_map defs_s b
+  | SWhile _ _ b e => flat_map defs_s b ++ flat_map defs_s e
+  | SFor _ x _ b e => x :: flat_map defs_s b ++ flat_map defs_s e
   | SCall _ rets _ _ _ _ => rets
   | _ => []
   end.
@@ -139,11 +142,11 @@ Section ExecS.
         | None => (ErrUnbound, st, o)
         | Some v => if Z.eqb v 0 then exec_b b st o else exec_b a st o
         end
-    | SWhile _ c b => loop (KWhile c b) st o
-    | SFor _ x e b =>
+    | SWhile _ c b els => loop (KWhile c b els) st o
+    | SFor _ x e b els =>
         match eval st e with
         | None => (ErrUnbound, st, o)
-        | Some hi => loop (KFor x 0%Z hi b) st o
+        | Some hi => loop (KFor x 0%Z hi b els) st o
         end
     | SReturn _ e =>
         match eval st e with
@@ -184,21 +187,21 @@ Fixpoint exec_k (n : nat) (k : loopk) (st : store) (o : list Z) {struct n} : res
   | O => (OOF, st, o)
   | S m =>
       match k with
-      | KWhile c b =>
+      | KWhile c b els =>
           match eval st c with
           | None => (ErrUnbound, st, o)
           | Some v =>
-              if Z.eqb v 0 then (Norm, st, o)
+              if Z.eqb v 0 then exec_b (exec_k m) els st o     (* the else-clause; its break/continue go outwards *)
               else match exec_b (exec_k m) b st o with
-                   | (Norm, st', o') | (Cont, st', o') => exec_k m (KWhile c b) st' o'
+                   | (Norm, st', o') | (Cont, st', o') => exec_k m (KWhile c b els) st' o'
                    | (Brk, st', o') => (Norm, st', o')
                    | x => x
                    end
           end
-      | KFor x i hi b =>
-          if Z.leb hi i then (Norm, st, o)
+      | KFor x i hi b els =>
+          if Z.leb hi i then exec_b (exec_k m) els st o
           else match exec_b (exec_k m) b (upd st x i) o with
-               | (Norm, st', o') | (Cont, st', o') => exec_k m (KFor x (i + 1)%Z hi b) st' o'
+               | (Norm, st', o') | (Cont, st', o') => exec_k m (KFor x (i + 1)%Z hi b els) st' o'
                | (Brk, st', o') => (Norm, st', o')
                | x => x
                end
@@ -227,22 +230,28 @@ Inductive loc :=
 | LHere (pre R post : list stmt)
 | LIfT (pre : list stmt) (l : N) (c : expr) (inner : loc) (b : list stmt) (post : list stmt)
 | LIfF (pre : list stmt) (l : N) (c : expr) (a : list stmt) (inner : loc) (post : list stmt)
-| LWhile (pre : list stmt) (l : N) (c : expr) (inner : loc) (post : list stmt)
-| LFor (pre : list stmt) (l : N) (x : var) (e : expr) (inner : loc) (post : list stmt).
+| LWhile (pre : list stmt) (l : N) (c : expr) (inner : loc) (els : list stmt) (post : list stmt)
+| LFor (pre : list stmt) (l : N) (x : var) (e : expr) (inner : loc) (els : list stmt) (post : list stmt)
+(* the region lies in the else-clause of a loop *)
+| LWhileE (pre : list stmt) (l : N) (c : expr) (b : list stmt) (inner : loc) (post : list stmt)
+| LForE (pre : list stmt) (l : N) (x : var) (e : expr) (b : list stmt) (inner : loc) (post : list stmt).
 
 Fixpoint plug (lc : loc) (h : list stmt) : list stmt :=
   match lc with
   | LHere pre _ post => pre ++ h ++ post
   | LIfT pre l c i b post => pre ++ SIf l c (plug i h) b :: post
   | LIfF pre l c a i post => pre ++ SIf l c a (plug i h) :: post
-  | LWhile pre l c i post => pre ++ SWhile l c (plug i h) :: post
-  | LFor pre l x e i post => pre ++ SFor l x e (plug i h) :: post
+  | LWhile pre l c i els post => pre ++ SWhile l c (plug i h) els :: post
+  | LFor pre l x e i els post => pre ++ SFor l x e (plug i h) els :: post
+  | LWhileE pre l c b i post => pre ++ SWhile l c b (plug i h) :: post
+  | LForE pre l x e b i post => pre ++ SFor l x e b (plug i h) :: post
   end.
 
 Fixpoint region (lc : loc) : list stmt :=
   match lc with
   | LHere _ R _ => R
-  | LIfT _ _ _ i _ _ | LIfF _ _ _ _ i _ | LWhile _ _ _ i _ | LFor _ _ _ _ i _ => region i
+  | LIfT _ _ _ i _ _ | LIfF _ _ _ _ i _ | LWhile _ _ _ i _ _ | LFor _ _ _ _ i _ _
+  | LWhileE _ _ _ _ i _ | LForE _ _ _ _ _ i _ => region i
   end.
 
 Definition orig (lc : loc) : list stmt := plug lc (region lc).
@@ -251,8 +260,8 @@ Definition orig (lc : loc) : list stmt := plug lc (region lc).
 Fixpoint loops_around (lc : loc) : nat :=
   match lc with
   | LHere _ _ _ => O
-  | LIfT _ _ _ i _ _ | LIfF _ _ _ _ i _ => loops_around i
-  | LWhile _ _ _ i _ | LFor _ _ _ _ i _ => S (loops_around i)
+  | LIfT _ _ _ i _ _ | LIfF _ _ _ _ i _ | LWhileE _ _ _ _ i _ | LForE _ _ _ _ _ i _ => loops_around i
+  | LWhile _ _ _ i _ _ | LFor _ _ _ _ i _ _ => S (loops_around i)
   end.
 
 (* ------------------------------------------------------------------ syntactic facts about a statement list *)
@@ -260,16 +269,18 @@ Fixpoint count_ret_s (s : stmt) : nat :=
   match s with
   | SReturn _ _ => 1
   | SIf _ _ a b => list_sum (map count_ret_s a) + list_sum (map count_ret_s b)
-  | SWhile _ _ b | SFor _ _ _ b => list_sum (map count_ret_s b)
+  | SWhile _ _ b e | SFor _ _ _ b e => list_sum (map count_ret_s b) + list_sum (map count_ret_s e)
   | _ => 0
   end.
 Definition count_ret (ss : list stmt) : nat := list_sum (map count_ret_s ss).
 
-(* _UnmatchedBreakOrContinueFinder: a break/continue not inside a loop of the extracted piece *)
+(* _UnmatchedBreakOrContinueFinder: a break/continue not inside a loop of the extracted piece; the body of a
+   loop is inside it, its else-clause is not (loop_count is decremented before the else-clause is visited) *)
 Fixpoint unmatched_bc_s (s : stmt) : bool :=
   match s with
   | SBreak _ | SContinue _ => true
   | SIf _ _ a b => existsb unmatched_bc_s a || existsb unmatched_bc_s b
+  | SWhile _ _ _ e | SFor _ _ _ _ e => existsb unmatched_bc_s e
   | _ => false
   end.
 
